@@ -7,7 +7,7 @@ set_option linter.unusedSimpArgs false
 
 namespace Hv.Cap
 
-def good : Cfg := { countAfterLock := true }
+def good : Cfg := { countAfterLock := true, createPreFalse := true, expiredHoldsCapMu := true }
 
 theorem count_set_le (l : List Bool) (k : Nat) (v : Bool) : (l.set k v).count true ≤ l.count true + 1 := by
   induction l generalizing k with
@@ -39,6 +39,47 @@ theorem set_true_of_getD (l : List Bool) (k : Nat) (h : l.getD k false = true) :
     | zero => simp at h; simp [h]
     | succ n => simp at h; simp only [List.set_cons_succ]; rw [ih n (by simpa using h)]
 
+/-- one patch keeps the batch's program counter and never lets `matching + budget` grow -/
+theorem patchOne_ok (s : St) (x : Batch) (k : Nat) (post : Bool) (rest : List (Nat × Bool)) :
+    (patchOne good s x k post rest).2.2.pc = x.pc ∧
+    (patchOne good s x k post rest).1.count true + (patchOne good s x k post rest).2.2.budget ≤
+      s.recs.count true + x.budget := by
+  unfold patchOne
+  by_cases hnf : (!(s.present.getD k false) && !x.create) = true
+  · simp only [hnf, if_true]; exact ⟨by first | rfl | trivial, Nat.le_refl _⟩
+  · simp only [hnf]
+    simp only [Bool.false_eq_true, if_false, good, if_true]
+    cases hh : s.present.getD k false
+    · -- absent: pre = false
+      simp only [Bool.false_eq_true, if_false]
+      cases post
+      · simp only [fourCell, Bool.not_false, Bool.and_false, Bool.false_eq_true, if_false]
+        exact ⟨by first | rfl | trivial, by have := count_set_false_le s.recs k; omega⟩
+      · by_cases hb0 : x.budget = 0
+        · simp [fourCell, hb0]
+        · simp only [fourCell, Bool.not_false, Bool.and_true, if_true, hb0, if_false]
+          refine ⟨by first | rfl | trivial, ?_⟩
+          have := count_set_le s.recs k true
+          show (s.recs.set k true).count true + (x.budget - 1) ≤ _
+          omega
+    · simp only [if_true]
+      cases hpre : s.recs.getD k false <;> cases post
+      · simp only [fourCell, Bool.not_false, Bool.and_false, Bool.false_eq_true, if_false]
+        exact ⟨by first | rfl | trivial, by have := count_set_false_le s.recs k; omega⟩
+      · by_cases hb0 : x.budget = 0
+        · simp [fourCell, hb0]
+        · simp only [fourCell, Bool.not_false, Bool.and_true, if_true, hb0, if_false]
+          refine ⟨by first | rfl | trivial, ?_⟩
+          have := count_set_le s.recs k true
+          show (s.recs.set k true).count true + (x.budget - 1) ≤ _
+          omega
+      · simp only [fourCell, Bool.not_true, Bool.false_and, Bool.false_eq_true, if_false]
+        exact ⟨by first | rfl | trivial, by have := count_set_false_le s.recs k; omega⟩
+      · simp only [fourCell, Bool.not_true, Bool.false_and, Bool.false_eq_true, if_false]
+        refine ⟨by first | rfl | trivial, ?_⟩
+        show (s.recs.set k true).count true + x.budget ≤ _
+        rw [set_true_of_getD s.recs k hpre]; omega
+
 /-- the budget of the batch that holds capMu and has counted -/
 def slack (s : St) : Nat :=
   match s.capMu with
@@ -54,16 +95,47 @@ structure Inv (s : St) : Prop where
 theorem setBatch_self (s : St) (b : Nat) (x : Batch) : setBatch s b x b = x := by simp [setBatch]
 theorem setBatch_ne (s : St) (b y : Nat) (x : Batch) (h : y ≠ b) : setBatch s b x y = s.batch y := by simp [setBatch, h]
 
+theorem inv_initP (recs present : List Bool) (max : Nat) (h : recs.count true ≤ max) : Inv (initP recs present max) := by
+  refine ⟨?_, ?_⟩
+  · intro b; simp [initP, Batch.empty, inCS]
+  · simp [initP, matching, slack]; exact h
+
 theorem inv_init (recs : List Bool) (max : Nat) (h : recs.count true ≤ max) : Inv (init recs max) := by
   refine ⟨?_, ?_⟩
-  · intro b; simp [init, Batch.empty, inCS]
-  · simp [init, matching, slack]; exact h
+  · intro b; simp [init, initP, Batch.empty, inCS]
+  · simp [init, initP, matching, slack]; exact h
 
 theorem slack_le_of_not_holder_run (s : St) (h : ∀ b, s.capMu = some b → (s.batch b).pc ≠ .run) : slack s = 0 := by
   unfold slack
   cases hc : s.capMu with
   | none => rfl
   | some b => simp [h b hc]
+
+/-- a new batch in state `ready` -/
+theorem inv_submit (s : St) (h : Inv s) (b : Nat) (x : Batch) (hidle : (s.batch b).pc = .idle) (hx : x.pc = .ready) :
+    Inv { s with batch := setBatch s b x } := by
+  obtain ⟨hH, hB⟩ := h
+  have hnb : s.capMu ≠ some b := by
+    intro e; have := (hH b).mp e; rw [hidle] at this; simp [inCS] at this
+  refine ⟨?_, ?_⟩
+  · intro y
+    dsimp only
+    by_cases hy : y = b
+    · subst hy; rw [setBatch_self]
+      constructor
+      · intro e; exact absurd e hnb
+      · intro e; rw [hx] at e; simp [inCS] at e
+    · rw [setBatch_ne s b y _ hy]; exact hH y
+  · have : slack { s with batch := setBatch s b x } = slack s := by
+      unfold slack
+      dsimp only
+      cases hcm : s.capMu with
+      | none => rfl
+      | some c =>
+        have hcb : c ≠ b := by intro e; subst e; exact hnb hcm
+        simp only [setBatch_ne s b c _ hcb]
+    show matching s + _ ≤ s.max
+    rw [this]; exact hB
 
 theorem inv_step (s : St) (a : Act) (s' : St) (h : Inv s) (hs : step good s a = some s') : Inv s' := by
   obtain ⟨hH, hB⟩ := h
@@ -72,37 +144,14 @@ theorem inv_step (s : St) (a : Act) (s' : St) (h : Inv s) (hs : step good s a = 
     simp only [step] at hs
     split at hs
     · rename_i hc; simp at hs; subst hs
-      have hidle := hc.1
-      have hnb : s.capMu ≠ some b := by
-        intro e; have := (hH b).mp e; rw [hidle] at this; simp [inCS] at this
-      refine ⟨?_, ?_⟩
-      · intro y
-        dsimp only
-        by_cases hy : y = b
-        · subst hy; rw [setBatch_self]
-          constructor
-          · intro e; exact absurd e hnb
-          · intro e; simp [inCS] at e
-        · rw [setBatch_ne s b y _ hy]; exact hH y
-      · have : slack { s with batch := setBatch s b { Batch.empty with pc := .ready, todo := ps } } = slack s := by
-          unfold slack
-          dsimp only
-          cases hcm : s.capMu with
-          | none => rfl
-          | some c =>
-            have hcb : c ≠ b := by intro e; subst e; exact hnb hcm
-            simp only [setBatch_ne s b c _ hcb]
-        show matching s + _ ≤ s.max
-        rw [this]; exact hB
+      exact inv_submit s ⟨hH, hB⟩ b _ hc.1 rfl
     · simp at hs
   | first b =>
-    simp only [step, good] at hs
+    simp only [step, good, Bool.true_or, if_true] at hs
     split at hs
     · rename_i hpc
-      simp only [if_true] at hs
       split at hs
       · rename_i hfree; simp at hs; subst hs
-        have hsl : slack s = 0 := by simp [slack, hfree]
         refine ⟨?_, ?_⟩
         · intro y
           dsimp only
@@ -112,17 +161,17 @@ theorem inv_step (s : St) (a : Act) (s' : St) (h : Inv s) (hs : step good s a = 
             constructor
             · intro e; simp at e; exact absurd e.symm hy
             · intro e; have := (hH y).mpr e; rw [hfree] at this; simp at this
-        · have : slack { s with capMu := some b, batch := setBatch s b { s.batch b with pc := .half } } = 0 := by
+        · have hsl : slack s = 0 := by simp [slack, hfree]
+          have : slack { s with capMu := some b, batch := setBatch s b { s.batch b with pc := .half } } = 0 := by
             simp [slack, setBatch_self]
           show matching s + _ ≤ s.max
           rw [this]; omega
       · simp at hs
     · simp at hs
   | second b =>
-    simp only [step, good] at hs
+    simp only [step, good, Bool.true_or, if_true] at hs
     split at hs
     · rename_i hpc
-      simp only [if_true] at hs
       simp at hs; subst hs
       have hhold : s.capMu = some b := (hH b).mpr (Or.inl hpc)
       have hsl : slack s = 0 := by simp [slack, hhold, hpc]
@@ -132,11 +181,8 @@ theorem inv_step (s : St) (a : Act) (s' : St) (h : Inv s) (hs : step good s a = 
         by_cases hy : y = b
         · subst hy; rw [setBatch_self]; simp [inCS, hhold]
         · rw [setBatch_ne s b y _ hy]; exact hH y
-      · have : slack { s with batch := setBatch s b { s.batch b with pc := .run, counted := matching s, budget := s.max - matching s } }
-            = s.max - matching s := by
-          simp [slack, hhold, setBatch_self]
-        show matching s + _ ≤ s.max
-        rw [this]; rw [hsl] at hB; omega
+      · simp only [slack, matching, hhold, setBatch_self, if_true]
+        rw [hsl] at hB; unfold matching at hB; omega
     · simp at hs
   | patch b =>
     simp only [step] at hs
@@ -149,69 +195,31 @@ theorem inv_step (s : St) (a : Act) (s' : St) (h : Inv s) (hs : step good s a = 
       | cons p rest =>
         obtain ⟨k, post⟩ := p
         simp only [htodo] at hs
-        -- the four cells
-        have holderKeep : ∀ (x : Batch), x.pc = .run → ∀ y, (some b = some y ↔ inCS (setBatch s b x y).pc) := by
-          intro x hx y
+        simp at hs; subst hs
+        obtain ⟨hkeep, hbnd⟩ := patchOne_ok s (s.batch b) k post rest
+        refine ⟨?_, ?_⟩
+        · intro y
+          dsimp only
           by_cases hy : y = b
-          · subst hy; rw [setBatch_self]; simp [inCS, hx]
-          · rw [setBatch_ne s b y _ hy]
-            rw [← hhold]; exact hH y
-        cases hpre : s.recs.getD k false <;> cases post <;>
-          simp only [fourCell, hpre, Bool.not_true, Bool.not_false, Bool.and_true, Bool.and_false,
-            Bool.false_and, Bool.true_and, if_true, if_false, Bool.false_eq_true] at hs
-        · -- no → no
-          simp at hs; subst hs
-          refine ⟨?_, ?_⟩
-          · intro y; dsimp only; rw [hhold]; exact holderKeep _ (by exact hpc) y
-          · have hs' : slack { s with recs := s.recs.set k false, batch := setBatch s b { s.batch b with budget := (s.batch b).budget, todo := rest } }
-                = (s.batch b).budget := by simp [slack, hhold, setBatch_self, hpc]
-            show (s.recs.set k false).count true + _ ≤ s.max
-            rw [hs']
-            have := count_set_false_le s.recs k
-            unfold matching at hB; omega
-        · -- no → yes
-          by_cases hb0 : (s.batch b).budget = 0
-          · simp [hb0] at hs; subst hs
-            refine ⟨?_, ?_⟩
-            · intro y; dsimp only; rw [hhold]; exact holderKeep _ (by exact hpc) y
-            · have hs' : slack { s with batch := setBatch s b { s.batch b with budget := 0, todo := rest, rejected := (s.batch b).rejected + 1 } } = 0 := by
-                simp [slack, hhold, setBatch_self, hpc]
-              show matching s + _ ≤ s.max
-              rw [hs']; omega
-          · simp [hb0] at hs; subst hs
-            refine ⟨?_, ?_⟩
-            · intro y; dsimp only; rw [hhold]; exact holderKeep _ (by exact hpc) y
-            · have hs' : slack { s with recs := s.recs.set k true, batch := setBatch s b { s.batch b with budget := (s.batch b).budget - 1, todo := rest } }
-                  = (s.batch b).budget - 1 := by simp [slack, hhold, setBatch_self, hpc]
-              show (s.recs.set k true).count true + _ ≤ s.max
-              rw [hs']
-              have := count_set_le s.recs k true
-              unfold matching at hB; omega
-        · -- yes → no
-          simp at hs; subst hs
-          refine ⟨?_, ?_⟩
-          · intro y; dsimp only; rw [hhold]; exact holderKeep _ (by exact hpc) y
-          · have hs' : slack { s with recs := s.recs.set k false, batch := setBatch s b { s.batch b with budget := (s.batch b).budget, todo := rest } }
-                = (s.batch b).budget := by simp [slack, hhold, setBatch_self, hpc]
-            show (s.recs.set k false).count true + _ ≤ s.max
-            rw [hs']
-            have := count_set_false_le s.recs k
-            unfold matching at hB; omega
-        · -- yes → yes
-          simp at hs; subst hs
-          refine ⟨?_, ?_⟩
-          · intro y; dsimp only; rw [hhold]; exact holderKeep _ (by exact hpc) y
-          · have hs' : slack { s with recs := s.recs.set k true, batch := setBatch s b { s.batch b with budget := (s.batch b).budget, todo := rest } }
-                = (s.batch b).budget := by simp [slack, hhold, setBatch_self, hpc]
-            show (s.recs.set k true).count true + _ ≤ s.max
-            rw [hs', set_true_of_getD s.recs k hpre]
-            unfold matching at hB; omega
+          · subst hy; rw [setBatch_self, hkeep]; simp [inCS, hpc, hhold]
+          · rw [setBatch_ne s b y _ hy]; exact hH y
+        · have hs' : slack { s with recs := (patchOne good s (s.batch b) k post rest).1,
+                                    present := (patchOne good s (s.batch b) k post rest).2.1,
+                                    batch := setBatch s b (patchOne good s (s.batch b) k post rest).2.2 }
+              = (patchOne good s (s.batch b) k post rest).2.2.budget := by
+            simp [slack, hhold, setBatch_self, hkeep, hpc]
+          show (patchOne good s (s.batch b) k post rest).1.count true + _ ≤ s.max
+          rw [hs']
+          unfold matching at hB
+          omega
     · simp at hs
   | unlock b =>
     simp only [step] at hs
     split at hs
     · rename_i hc; simp at hs; subst hs
-      obtain ⟨hpc, _, hhold⟩ := hc
+      obtain ⟨hpc, _⟩ := hc
+      have hhold : s.capMu = some b := (hH b).mpr (Or.inr hpc)
+      simp only [hhold, if_true]
       refine ⟨?_, ?_⟩
       · intro y
         dsimp only
@@ -225,6 +233,28 @@ theorem inv_step (s : St) (a : Act) (s' : St) (h : Inv s) (hs : step good s a = 
         show matching s + _ ≤ s.max
         rw [this]; omega
     · simp at hs
+  | submitCreate b ps sm =>
+    simp only [step] at hs
+    split at hs
+    · rename_i hc; simp at hs; subst hs
+      exact inv_submit s ⟨hH, hB⟩ b _ hc.1 rfl
+    · simp at hs
+  | submitExpired b ks =>
+    simp only [step] at hs
+    split at hs
+    · rename_i hc; simp at hs; subst hs
+      exact inv_submit s ⟨hH, hB⟩ b _ hc.1 rfl
+    · simp at hs
+  | unlockEarly b =>
+    simp [step, good] at hs
+  | delete k =>
+    simp [step] at hs; subst hs
+    refine ⟨hH, ?_⟩
+    have : slack { s with recs := s.recs.set k false, present := s.present.set k false } = slack s := rfl
+    show (s.recs.set k false).count true + _ ≤ s.max
+    rw [this]
+    have := count_set_false_le s.recs k
+    unfold matching at hB; omega
   | shrink k =>
     simp [step] at hs; subst hs
     refine ⟨hH, ?_⟩
